@@ -15,13 +15,14 @@ import (
 // ---------- executor (one instance per explored path) ----------
 
 type ExecOpts struct {
-	PermuteRange bool   // map range / sync.Map.Range order is a symbolic permutation
-	Sched        string // "" (no goroutines expected), "join", "interleave"
-	MaxSwitches  int    // interleave: bound on preemptive context switches
-	MaxSteps     int    // unwinding: SSA instructions per path
-	MaxDepth     int    // unwinding: call depth
-	Termination  bool   // exceeding the budget is a violation candidate (C02, C16), not inconclusive
-	Races        bool   // happens-before race detection
+	PermuteRange   bool   // map range / sync.Map.Range order is a symbolic permutation
+	PermutePerCall bool   // a fresh permutation on every range (default: one permutation per map state)
+	Sched          string // "" (no goroutines expected), "join", "interleave"
+	MaxSwitches    int    // interleave: bound on preemptive context switches
+	MaxSteps       int    // unwinding: SSA instructions per path
+	MaxDepth       int    // unwinding: call depth
+	Termination    bool   // exceeding the budget is a violation candidate (C02, C16), not inconclusive
+	Races          bool   // happens-before race detection
 }
 
 type traceEnt struct {
@@ -45,10 +46,10 @@ type obsEnt struct {
 }
 
 type Exec struct {
-	w    *World
-	sol  *Solver
-	opts ExecOpts
-	par  map[string]int
+	w     *World
+	sol   *Solver
+	opts  ExecOpts
+	par   map[string]int
 	known map[string]bool
 
 	globals  map[*ssa.Global]*Cell
@@ -77,14 +78,15 @@ type Exec struct {
 	catching  int
 
 	// goroutines
-	gors     []*gor
-	cur      *gor
-	dead     bool
-	fatal    interface{}
-	switches int
-	raceLog  []string
-	entVC    map[*MapEnt]vclock
-	hostDone chan struct{}
+	gors      []*gor
+	cur       *gor
+	dead      bool
+	fatal     interface{}
+	switches  int
+	raceLog   []string
+	entVC     map[*MapEnt]vclock
+	permCache [][]*MapEnt
+	hostDone  chan struct{}
 }
 
 type frame struct {
@@ -557,6 +559,31 @@ func (x *Exec) rangeOrder(ents []*MapEnt) []*MapEnt {
 	if !x.opts.PermuteRange || len(out) < 2 {
 		return out
 	}
+	if !x.opts.PermutePerCall {
+		// reuse the permutation chosen earlier for exactly this entry set
+		for _, c := range x.permCache {
+			if len(c) != len(out) {
+				continue
+			}
+			same := true
+			for _, e := range out {
+				found := false
+				for _, f := range c {
+					if f == e {
+						found = true
+						break
+					}
+				}
+				if !found {
+					same = false
+					break
+				}
+			}
+			if same {
+				return append([]*MapEnt{}, c...)
+			}
+		}
+	}
 	// Lehmer-code style: pick each position by forking
 	for i := 0; i < len(out)-1; i++ {
 		alts := make([]string, len(out)-i)
@@ -565,6 +592,9 @@ func (x *Exec) rangeOrder(ents []*MapEnt) []*MapEnt {
 		}
 		j := i + x.choose(alts, "perm")
 		out[i], out[j] = out[j], out[i]
+	}
+	if !x.opts.PermutePerCall {
+		x.permCache = append(x.permCache, append([]*MapEnt{}, out...))
 	}
 	return out
 }
